@@ -1,6 +1,7 @@
 // C14 -- constant-time helpers compute exact comparisons and little-endian arithmetic.
 // Oracle: byte-vector big-integer model written here (no shared code with utils.c / verify.c).
 #include "vh_main.hpp"
+#include "giant.hpp"
 using namespace vh;
 
 namespace {
@@ -283,12 +284,59 @@ void explore_memzero(Ctx &ctx) {
     (void) r;
 }
 
-bool replay(const KV &k, std::string &msg) { Case c = Case::from(k); return run(c, msg); }
+// ------------------------------------------------------------------ operands of 4 GiB and more (thorough tier, non-sanitizer build, first round)
+// Two sparse mappings of 2^32 + 16 bytes (all zero except the bytes set here; reading costs no memory).  sodium_compare treats the LAST byte
+// as the most significant one: a length truncated to 32 bits would look at the first 16 bytes only.
+struct GiantCase { int op; int variant; size_t len; KV kv() const { KV k; k.s("kind", "giant").u("op", op).u("variant", variant).u("len", len); return k; } };
+uint64_t g_giant_skipped = 0;
+bool run_giant(const GiantCase &c, std::string &msg) {
+    giant::Map A(c.len), B(c.len); if (!A.ok() || !B.ok()) { g_giant_skipped++; return true; }
+    const size_t G = (size_t) 1 << 32;
+    char b[300]; int got, want;
+    switch (c.op) {
+    case 0:      // sodium_compare
+        switch (c.variant) {
+        case 0: A.p[c.len - 1] = 1; B.p[c.len - 1] = 2; A.p[3] = 9; B.p[3] = 1; want = -1; break;          // decided by the most significant byte, low bytes say the opposite
+        case 1: A.p[G + 2] = 7; B.p[G + 2] = 6; A.p[3] = 1; B.p[3] = 9; want = 1; break;                    // decided just above 2^32
+        case 2: A.p[5] = 2; B.p[5] = 1; want = 1; break;                                                    // equal everywhere above
+        case 3: A.p[G - 1] = 1; B.p[G - 1] = 1; A.p[G] = 0x80; B.p[G] = 0x80; want = 0; break;              // equal
+        default: A.p[G] = 1; want = 1; break;
+        }
+        got = sodium_compare(A.p, B.p, c.len);
+        if (got != want) { snprintf(b, sizeof b, "sodium_compare over %zu-byte operands (variant %d) returned %d, little-endian order says %d", c.len, c.variant, got, want); msg = b; return false; }
+        return true;
+    case 1:      // sodium_memcmp
+        if (c.variant == 0) { A.p[G + 9] = 1; want = -1; } else if (c.variant == 1) { A.p[c.len - 1] = 0x40; want = -1; } else if (c.variant == 2) { A.p[7] = 3; B.p[7] = 3; A.p[G + 1] = 5; B.p[G + 1] = 5; want = 0; } else { A.p[0] = 1; want = -1; }
+        got = sodium_memcmp(A.p, B.p, c.len);
+        if (got != want) { snprintf(b, sizeof b, "sodium_memcmp over %zu bytes (variant %d) returned %d, expected %d", c.len, c.variant, got, want); msg = b; return false; }
+        return true;
+    default:     // sodium_is_zero
+        if (c.variant == 0) want = 1; else if (c.variant == 1) { A.p[G + 3] = 1; want = 0; } else if (c.variant == 2) { A.p[c.len - 1] = 0x80; want = 0; } else { A.p[G - 1] = 2; want = 0; }
+        got = sodium_is_zero(A.p, c.len);
+        if (got != want) { snprintf(b, sizeof b, "sodium_is_zero over %zu bytes (variant %d) returned %d, expected %d", c.len, c.variant, got, want); msg = b; return false; }
+        return true;
+    }
+}
+void explore_giant(Ctx &ctx) {
+    if (!ctx.thorough() || !giant::fast_build() || !giant::first_round()) { ctx.notes["giant_operands"] = "thorough tier, non-sanitizer build, first round only"; return; }
+    uint64_t idx = 0;
+    for (size_t len : { ((size_t) 1 << 32) + 16, (size_t) 1 << 32 })
+        for (int op = 0; op < 3; op++) for (int v = 0; v < (op == 0 ? 5 : 4); v++) {
+            if (len == ((size_t) 1 << 32) && (v == 1 || (op == 1 && (v == 0 || v == 2)) || (op == 2 && v == 1) || (op == 0 && v >= 3))) continue;      // these variants set bytes at or above 2^32
+            if (!ctx.mine(idx++)) continue;
+            GiantCase c{ op, v, len };
+            exec_case(ctx, c, run_giant, mix64(mix64(op, v), len), true);
+        }
+    ctx.notes["giant_operands_skipped_no_memory"] = std::to_string(g_giant_skipped);
+}
+
+bool replay(const KV &k, std::string &msg) { if (k.gs("kind") == "giant") { GiantCase c{ (int) k.gu("op"), (int) k.gu("variant"), (size_t) k.gu("len") }; return run_giant(c, msg); } Case c = Case::from(k); return run(c, msg); }
 
 }  // namespace
 
 std::vector<Sub> vh_subs() {
     return {
+        { "giant_operands", explore_giant, replay },
         { "structured", explore_structured, replay },
         { "exhaustive", explore_exhaustive, replay },
         { "fastpaths", explore_fastpaths, replay },
